@@ -9,14 +9,16 @@ import (
 	"fmt"
 	"math/bits"
 	"os"
+	"sort"
 	"strings"
 )
 
 // user is an identity on both sides: MemIdm hands out exactly these numbers
 // (checked at start), the kernel side uses them as fsuid/fsgid.
 type user struct {
-	Name     string
-	Uid, Gid int
+	Name string `json:"name"`
+	Uid  int    `json:"uid"`
+	Gid  int    `json:"gid"`
 }
 
 // index 0 is the administrator.
@@ -39,13 +41,30 @@ type node struct {
 	Kind string `json:"kind"` // D empty dir, N dir holding one file "c", F file "abc", L symlink to R/tf
 	Uid  int    `json:"uid"`
 	Gid  int    `json:"gid"`
-	Mode uint32 `json:"mode"` // Unix layout, 0o7777
+	Mode oct    `json:"mode"` // Unix layout, 0o7777
+}
+
+// oct is a mode / perm / umask in Unix layout, written in octal in replays.
+type oct uint32
+
+func (o oct) MarshalJSON() ([]byte, error) { return []byte(fmt.Sprintf("\"%04o\"", uint32(o))), nil }
+
+func (o *oct) UnmarshalJSON(b []byte) error {
+	var v uint32
+
+	if _, err := fmt.Sscanf(strings.Trim(string(b), "\""), "%o", &v); err != nil {
+		return err
+	}
+
+	*o = oct(v)
+
+	return nil
 }
 
 func (n node) isDir() bool { return n.Kind == "D" || n.Kind == "N" }
 
 func (n node) String() string {
-	return fmt.Sprintf("%s[%s %s %d:%d %04o]", n.Role, n.Path, n.Kind, n.Uid, n.Gid, n.Mode)
+	return fmt.Sprintf("%s[%s %s %d:%d %04o]", n.Role, n.Path, n.Kind, n.Uid, n.Gid, uint32(n.Mode))
 }
 
 // dom selects the covering set of one node.
@@ -65,12 +84,12 @@ type callT struct {
 	Op      string `json:"op"`
 	Variant string `json:"variant,omitempty"` // signature class: flag set / perm / chown form / size
 	Flag    int    `json:"flag,omitempty"`
-	Perm    uint32 `json:"perm,omitempty"`  // Unix layout
-	Umask   uint32 `json:"umask"`           // umask in force on both sides
-	Form    string `json:"form,omitempty"`  // chown form, resolved against the actor
-	Size    int64  `json:"size,omitempty"`  // Truncate
-	Sub     string `json:"sub,omitempty"`   // operand is leaf + "/" + Sub (MkdirAll two levels)
-	Dest    string `json:"dest,omitempty"`  // relative path of the second operand (Rename/Link)
+	Perm    oct    `json:"perm"`           // Unix layout
+	Umask   oct    `json:"umask"`          // umask in force on both sides
+	Form    string `json:"form,omitempty"` // chown form, resolved against the actor
+	Size    int64  `json:"size,omitempty"` // Truncate
+	Sub     string `json:"sub,omitempty"`  // operand is leaf + "/" + Sub (MkdirAll two levels)
+	Dest    string `json:"dest,omitempty"` // relative path of the second operand (Rename/Link)
 	Creates bool   `json:"creates,omitempty"`
 }
 
@@ -94,11 +113,11 @@ type family struct {
 
 // block = family x acting user: the unit that is enumerated exhaustively.
 type block struct {
-	Fam    *family
-	Phase  string
-	Actor  int
-	radix  [][3]int // per node: |OG|, |modes|, |special|
-	N      int
+	Fam   *family
+	Phase string
+	Actor int
+	radix [][3]int // per node: |OG|, |modes|, |special|
+	N     int
 }
 
 var flagNames = []struct {
@@ -121,8 +140,8 @@ func flagName(f int) string {
 }
 
 var (
-	allUmasks = []uint32{0o022, 0o000, 0o002, 0o027, 0o077}
-	allPerms  = []uint32{0o666, 0o600, 0o777, 0o2755}
+	allUmasks = []oct{0o022, 0o000, 0o002, 0o027, 0o077}
+	allPerms  = []oct{0o666, 0o600, 0o777, 0o2755}
 	chownAll  = []string{"self", "uid-other", "gid-own", "gid-other", "noop", "uid-self"}
 )
 
@@ -160,7 +179,7 @@ func resolveChown(form string, a user) (uid, gid int) {
 func callsF(tier string, dest string) []callT {
 	var cs []callT
 
-	um := uint32(0o022)
+	um := oct(0o022)
 
 	for _, f := range []int{os.O_RDONLY, os.O_WRONLY, os.O_RDWR, os.O_WRONLY | os.O_TRUNC, os.O_WRONLY | os.O_APPEND} {
 		cs = append(cs, callT{Op: "OpenFile", Variant: flagName(f), Flag: f, Umask: um})
@@ -168,7 +187,7 @@ func callsF(tier string, dest string) []callT {
 
 	// creating flag sets on an existing file: perm and umask must be ignored
 	for _, f := range []int{os.O_RDWR | os.O_CREATE, os.O_WRONLY | os.O_CREATE | os.O_EXCL} {
-		for _, u := range []uint32{0o022, 0o077} {
+		for _, u := range []oct{0o022, 0o077} {
 			cs = append(cs, callT{Op: "OpenFile", Variant: flagName(f), Flag: f, Perm: 0o666, Umask: u})
 		}
 	}
@@ -184,13 +203,13 @@ func callsF(tier string, dest string) []callT {
 		callT{Op: "Chtimes", Umask: um},
 	)
 
-	chmods := []uint32{0o640, 0o2755}
+	chmods := []oct{0o640, 0o2755}
 	if tier == "thorough" {
 		chmods = append(chmods, 0o1777)
 	}
 
 	for _, m := range chmods {
-		cs = append(cs, callT{Op: "Chmod", Variant: fmt.Sprintf("%04o", m), Perm: m, Umask: um})
+		cs = append(cs, callT{Op: "Chmod", Variant: fmt.Sprintf("%04o", uint32(m)), Perm: m, Umask: um})
 	}
 
 	for _, f := range chownAll {
@@ -233,7 +252,7 @@ func callsF(tier string, dest string) []callT {
 
 // calls on an existing empty directory.
 func callsD(tier string, dest string) []callT {
-	um := uint32(0o022)
+	um := oct(0o022)
 	cs := []callT{
 		{Op: "OpenFile", Variant: "RDONLY", Flag: os.O_RDONLY, Umask: um},
 		{Op: "OpenFile", Variant: "RDWR", Flag: os.O_RDWR, Umask: um},
@@ -267,7 +286,7 @@ func callsD(tier string, dest string) []callT {
 
 // calls on a directory holding one root-owned file "c".
 func callsN(tier string, dest string) []callT {
-	um := uint32(0o022)
+	um := oct(0o022)
 
 	return []callT{
 		{Op: "ReadDir", Umask: um},
@@ -281,7 +300,7 @@ func callsN(tier string, dest string) []callT {
 
 // calls on a symbolic link to the root-owned file R/tf.
 func callsL(tier string, dest string) []callT {
-	um := uint32(0o022)
+	um := oct(0o022)
 	cs := []callT{
 		{Op: "Stat", Umask: um},
 		{Op: "Lstat", Umask: um},
@@ -308,7 +327,7 @@ func callsL(tier string, dest string) []callT {
 
 // calls on a missing name: the creating calls with every perm x umask.
 func callsM(tier string) []callT {
-	um := uint32(0o022)
+	um := oct(0o022)
 	cs := []callT{
 		{Op: "Stat", Umask: um},
 		{Op: "OpenFile", Variant: "RDONLY", Flag: os.O_RDONLY, Umask: um},
@@ -320,13 +339,13 @@ func callsM(tier string) []callT {
 		cs = append(cs, callT{Op: "Create", Umask: u, Creates: true})
 	}
 
-	for _, u := range []uint32{0o022, 0o077} {
+	for _, u := range []oct{0o022, 0o077} {
 		cs = append(cs, callT{Op: "Symlink", Umask: u, Creates: true})
 	}
 
 	for _, p := range allPerms {
 		for _, u := range allUmasks {
-			v := fmt.Sprintf("%04o", p)
+			v := permClass(p)
 			cs = append(cs,
 				callT{Op: "Mkdir", Variant: v, Perm: p, Umask: u, Creates: true},
 				callT{Op: "MkdirAll", Variant: v, Perm: p, Umask: u, Creates: true},
@@ -339,6 +358,20 @@ func callsM(tier string) []callT {
 	}
 
 	return cs
+}
+
+// permClass is the class of a creation mode in signatures (the exact value is
+// in the replay): what can matter is a special bit and whether the owner gets
+// search permission on a directory created with it.
+func permClass(p oct) string {
+	switch {
+	case p&0o7000 != 0:
+		return "perm-setgid"
+	case p&0o100 == 0:
+		return "perm-rw"
+	}
+
+	return "perm-rwx"
 }
 
 // level describes the domains used by one phase.
@@ -381,6 +414,11 @@ func families(tier string, depth int, lv level, tag string) []*family {
 	}
 
 	symDom := dom{OG: lv.leaf.OG, Modes: -1}
+	ogOnly := dom{OG: lv.leaf.OG, Modes: -1}
+	um := oct(0o022)
+	// Rename / Link onto an existing file of the same directory: the victim's
+	// owner matters in a sticky directory
+	onto := append(with("F", ogOnly), nodeT{"b", dest, "F", ogOnly})
 
 	return []*family{
 		{ID: id("F"), Depth: depth, Nodes: with("F", lv.leaf), Leaf: leaf, LeafKind: "F", Calls: callsF(tier, dest)},
@@ -388,12 +426,16 @@ func families(tier string, depth int, lv level, tag string) []*family {
 		{ID: id("D"), Depth: depth, Nodes: with("D", lv.leafDir), Leaf: leaf, LeafKind: "D", Calls: callsD(tier, dest)},
 		{ID: id("N"), Depth: depth, Nodes: with("N", lv.leafDir), Leaf: leaf, LeafKind: "N", Calls: callsN(tier, dest)},
 		{ID: id("L"), Depth: depth, Nodes: with("L", symDom), Leaf: leaf, LeafKind: "L", Calls: callsL(tier, dest)},
+		{ID: id("FF"), Depth: depth, Nodes: onto, Leaf: leaf, LeafKind: "F", Calls: []callT{
+			{Op: "Link", Variant: "samedir-onto", Dest: dest, Umask: um},
+			{Op: "Rename", Variant: "samedir-onto", Dest: dest, Umask: um},
+		}},
 	}
 }
 
 // crossFamilies: two parent directories directly below R.
 func crossFamilies(tier string, full bool) []*family {
-	um := uint32(0o022)
+	um := oct(0o022)
 	p := dom{0, 0, 1}
 	q := dom{0, 0, 2}
 	qd := dom{0, 0, 0}
@@ -465,6 +507,17 @@ func plan(tier string) []*block {
 	ld := lvQuick
 	ld.grand = dom{0, 1, 2}
 	add("D", families(tier, 3, ld, "+"), []int{1, 3, 0})
+
+	// within a phase the small blocks first: a budget cut then leaves as many
+	// blocks as possible complete (the counterexample kept for a signature is
+	// chosen by cost, not by position)
+	sort.SliceStable(out, func(i, j int) bool {
+		if out[i].Phase != out[j].Phase {
+			return out[i].Phase < out[j].Phase
+		}
+
+		return out[i].N*len(out[i].Fam.Calls) < out[j].N*len(out[j].Fam.Calls)
+	})
 
 	return out
 }
@@ -551,7 +604,7 @@ func classOf(a user, uid, gid int) string {
 }
 
 // modeAt returns the i-th mode of the covering set for the class that applies.
-func modeAt(nt nodeT, actor int, uid, gid, i int) uint32 {
+func modeAt(nt nodeT, actor int, uid, gid, i int) oct {
 	if nt.Kind == "L" {
 		return 0o777
 	}
@@ -574,7 +627,7 @@ func modeAt(nt nodeT, actor int, uid, gid, i int) uint32 {
 	}
 
 	// permissive first: 7,6,5,...,0 in the applicable class
-	v := uint32(7 - i%8)
+	v := oct(7 - i%8)
 	rest := i / 8
 	m := v << shift
 
@@ -608,7 +661,7 @@ func modeAt(nt nodeT, actor int, uid, gid, i int) uint32 {
 	return m
 }
 
-var specials = []uint32{0, 0o1000, 0o2000}
+var specials = []oct{0, 0o1000, 0o2000}
 
 // decode builds configuration number idx of a block.
 func (b *block) decode(idx int) []node {
@@ -648,7 +701,7 @@ func cost(depth int, nodes []node, actor int, c callT) int {
 			k += 500
 		}
 
-		k += 10 * bits.OnesCount32((n.Mode&0o777)^0o777)
+		k += 10 * bits.OnesCount32(uint32(n.Mode&0o777)^0o777)
 
 		if n.Uid != users[actor].Uid {
 			k += 30
@@ -670,7 +723,7 @@ func cost(depth int, nodes []node, actor int, c callT) int {
 	return k
 }
 
-func specialName(m uint32) string {
+func specialName(m oct) string {
 	var s []string
 
 	if m&0o1000 != 0 {
